@@ -63,6 +63,8 @@ func scenarios(r *hxlib.Run) []scn {
 		add(scn{Writer: "create-atomic", Old: old, OldLen: small(), NewLen: small(), TmpMode: "explicit"})
 	}
 	add(scn{Writer: "create-atomic", Old: "file400", OldLen: small(), NewLen: small(), Var: "nilopts"})
+	add(scn{Writer: "create-atomic", Old: "file", OldLen: small(), NewLen: small(), TmpMode: "explicit-cross"})
+	add(scn{Writer: "copy-atomic", Old: "absent", NewLen: small(), TmpMode: "explicit-cross", Perm: "600"})
 	add(scn{Writer: "create-atomic", Old: "file", OldLen: small(), NewLen: small(), Perm: "0", TmpMode: "cross"})
 	add(scn{Writer: "create-atomic", Old: "file", OldLen: small(), NewLen: multi(), Fail: "reader", TmpMode: "bad"})
 	// utils.CopyFileAtomic / ReplaceFileAtomic
@@ -170,7 +172,7 @@ func scenarios(r *hxlib.Run) []scn {
 				s.Fail = "reader"
 			}
 			if r.Rng.Intn(4) == 0 {
-				s.TmpMode = "explicit"
+				s.TmpMode = []string{"explicit", "explicit-cross"}[r.Rng.Intn(2)]
 			}
 		case "copy-atomic", "replace-atomic":
 			s.Perm = []string{"0", "600", "644", "755"}[r.Rng.Intn(4)]
